@@ -786,6 +786,40 @@ pub fn run(out: &mut Out, tier: &str, seed: u64, prop: &str) {
                     }
                 }
             }
+            // top_level_extra: the model's loop over the model's DNF, on pool markers, on markers gated by an extra
+            // (`m and extra == e`, `(m and extra == e) or (m' and extra == e)`) and on ones gated by two different extras
+            {
+                let mut cands: Vec<Term> = Vec::new();
+                for k in 0..(if big { 400 } else { 120 }) {
+                    let (a, b) = (&items[rng.below(items.len())], &items[rng.below(items.len())]);
+                    let (e1, e2) = (["dev", "test", "foo-bar"][k % 3], ["dev", "a", "test"][(k / 3) % 3]);
+                    cands.push(a.term.clone());
+                    cands.push(Term::and(a.term.clone(), Term::X(false, e1.into())));
+                    cands.push(Term::or(Term::and(a.term.clone(), Term::X(false, e1.into())), Term::and(b.term.clone(), Term::X(false, e1.into()))));
+                    cands.push(Term::or(Term::and(a.term.clone(), Term::X(false, e1.into())), Term::and(b.term.clone(), Term::X(false, e2.into()))));
+                    cands.push(Term::and(Term::X(false, e1.into()), Term::X(true, e2.into())));
+                    cands.push(Term::and(Term::and(Term::X(false, e2.into()), Term::X(false, e1.into())), a.term.clone()));
+                }
+                for t in &cands {
+                    let Some(m) = try_build(out, "C11", t) else { return };
+                    let spell = spell_table(&m);
+                    if spell == "AMBIGUOUS" { continue; }
+                    out.evaluations += 1;
+                    let tle = catch_unwind(AssertUnwindSafe(|| m.top_level_extra()));
+                    let Ok(tle) = tle else { out.oracle_fail("C11", "panic in top_level_extra", serde_json::json!({"term": t.line()})); continue };
+                    out.case(format!("tle\tL {}\t{}", dump(&m), spell), tle.as_ref().map(crate::mparse::expr_line).unwrap_or("none".into()));
+                    out.stat(if tle.is_some() { "c11.tle_some" } else { "c11.tle_none" });
+                    // meaning, directly: the named extra is active in every satisfying assignment
+                    if let Some(pep508_rs::MarkerExpression::Extra { name: pep508_rs::MarkerValueExtra::Extra(x), .. }) = &tle {
+                        for e in region_envs(&mut rng, &[t], 6) {
+                            if e.eval(&m) && !e.extras().contains(x) {
+                                out.oracle_fail("C11", "top_level_extra() names an extra that is not active in a satisfying assignment", serde_json::json!({"term": t.line(), "extra": x.to_string(), "env": e.line()}));
+                                break;
+                            }
+                        }
+                    }
+                }
+            }
             // extra == 'N' atoms in every spelling: expression correspondence + meaning
             for e in &pe.extras {
                 for neg in [false, true] {
@@ -1055,6 +1089,12 @@ pub fn run(out: &mut Out, tier: &str, seed: u64, prop: &str) {
                         out.oracle_fail("C05", &format!("to_dnf() evaluates to {got}, the marker to {want}"), serde_json::json!({"term": it.term.line(), "text": text, "env": e.line()}));
                         break;
                     }
+                }
+                // (5') top_level_extra itself against the model's loop over the model's DNF
+                if spell != "AMBIGUOUS" {
+                    let tle = m.top_level_extra();
+                    out.case(format!("tle\tL {}\t{}", it.dump, spell), tle.as_ref().map(crate::mparse::expr_line).unwrap_or("none".into()));
+                    out.stat(if tle.is_some() { "c05.tle_some" } else { "c05.tle_none" });
                 }
                 // (5) top_level_extra (C11's clause): `extra == e` only if e is active in every satisfying assignment
                 if let Some(pep508_rs::MarkerExpression::Extra { name: pep508_rs::MarkerValueExtra::Extra(x), .. }) = m.top_level_extra() {
